@@ -219,6 +219,100 @@ theorem mean_perm_invariant (eig : Mat ℝ 4 4 → Q ℝ) (w w' : Vec ℝ n) (q 
 theorem eq_of_get_eq {u v : Q ℝ} (h : u.get = v.get) : u = v := by
   rw [← ofFn_get u, ← ofFn_get v, h]
 
+/-! ### the same rotation in general: uniqueness up to sign under a simple largest eigenvalue -/
+
+/-- "the largest eigenvalue of `Σ w_i q_i q_iᵀ` is simple", stated on a result `v`: every eigenvector for
+    `v`'s eigenvalue is a multiple of `v` -/
+def SimpleTop (w : Vec ℝ n) (q : Mat ℝ 4 n) (v : Q ℝ) : Prop :=
+  ∀ (lam : ℝ) (u : Fin 4 → ℝ), toM (outerMean w q) *ᵥ v.get = lam • v.get →
+    toM (outerMean w q) *ᵥ u = lam • u → ∃ c : ℝ, u = c • v.get
+
+/-- two results meeting the contract for the same inputs are the same rotation (`±`) when the largest
+    eigenvalue is simple -/
+theorem mean_unique_up_to_sign (eig eig' : Mat ℝ 4 4 → Q ℝ) (w : Vec ℝ n) (q : Mat ℝ 4 n)
+    (h : MeanContract eig w q) (h' : MeanContract eig' w q) (hs : SimpleTop w q (quatMean eig w q)) :
+    quatMean eig' w q = quatMean eig w q ∨ quatMean eig' w q = (quatMean eig w q).neg := by
+  rcases contract_unique_of_simple _ _ _ h h' hs with e | e
+  · left; exact eq_of_get_eq e
+  · right; apply eq_of_get_eq; rw [get_neg]; exact e
+
+/-- negating any inputs does not change the mean as a rotation — for any two solvers meeting the
+    contract (e.g. the same solver run on the two inputs), given a simple largest eigenvalue -/
+theorem mean_sign_invariant_rotation (eig eig' : Mat ℝ 4 4 → Q ℝ) (w : Vec ℝ n) (q q' : Mat ℝ 4 n)
+    (s : Fin n → ℝ) (hsgn : ∀ i, s i = 1 ∨ s i = -1) (hq' : ∀ a i, q' a i = s i * q a i)
+    (h : MeanContract eig w q) (h' : MeanContract eig' w q') (hs : SimpleTop w q (quatMean eig w q)) :
+    quatMean eig' w q' = quatMean eig w q ∨ quatMean eig' w q' = (quatMean eig w q).neg := by
+  have hM := (mean_sign_invariant eig w q q' s hsgn hq').1
+  have h'' : MeanContract eig' w q := by
+    unfold MeanContract at h' ⊢; rw [hM] at h'; exact h'
+  have := mean_unique_up_to_sign eig eig' w q h h'' hs
+  unfold quatMean at this ⊢
+  rw [hM]; exact this
+
+/-- permuting the inputs (with their weights) does not change the mean as a rotation -/
+theorem mean_perm_invariant_rotation (eig eig' : Mat ℝ 4 4 → Q ℝ) (w w' : Vec ℝ n) (q q' : Mat ℝ 4 n)
+    (σ : Equiv.Perm (Fin n)) (hw' : ∀ i, w' i = w (σ i)) (hq' : ∀ a i, q' a i = q a (σ i))
+    (h : MeanContract eig w q) (h' : MeanContract eig' w' q') (hs : SimpleTop w q (quatMean eig w q)) :
+    quatMean eig' w' q' = quatMean eig w q ∨ quatMean eig' w' q' = (quatMean eig w q).neg := by
+  have hM := (mean_perm_invariant eig w w' q q' σ hw' hq').1
+  have h'' : MeanContract eig' w q := by
+    unfold MeanContract at h' ⊢; rw [hM] at h'; exact h'
+  have := mean_unique_up_to_sign eig eig' w q h h'' hs
+  unfold quatMean at this ⊢
+  rw [hM]; exact this
+
+/-- a spectral gap in quadratic-form terms (`Σ w_i (q_i·u)² ≤ a (p·u)² + t (|u|² − (p·u)²)`, `t < a`, `p` a unit
+    eigenvector with eigenvalue `a`: i.e. `λ₂ ≤ t < a = λ₁`) gives `SimpleTop` for every result meeting the
+    contract -/
+theorem simple_top_of_gap (eig : Mat ℝ 4 4 → Q ℝ) (w : Vec ℝ n) (q : Mat ℝ 4 n) (p : Fin 4 → ℝ) (a t : ℝ)
+    (hp : p ⬝ᵥ p = 1) (hMp : toM (outerMean w q) *ᵥ p = a • p) (hta : t < a)
+    (hQ : ∀ u : Fin 4 → ℝ, ∑ i, w i * (colsOf q i ⬝ᵥ u) ^ 2 ≤ a * (p ⬝ᵥ u) ^ 2 + t * (u ⬝ᵥ u - (p ⬝ᵥ u) ^ 2))
+    (h : MeanContract eig w q) : SimpleTop w q (quatMean eig w q) := by
+  rw [toM_outerMean] at hMp
+  have hd := dominant_of_quadform (toV w) (colsOf q) p a t hp hMp hta hQ
+  unfold MeanContract at h
+  rw [toM_outerMean] at h
+  have hv : (quatMean eig w q).get = p ∨ (quatMean eig w q).get = -p := hd.2 _ h
+  intro lam u hlam hu
+  rw [toM_outerMean] at hlam hu
+  -- the result's eigenvalue is `a`
+  have hlama : lam = a := by
+    have hp0 : p ≠ 0 := by intro h0; rw [h0] at hp; simp at hp
+    rcases hv with e | e
+    · rw [e, hMp] at hlam
+      have := congrArg (fun x => p ⬝ᵥ x) hlam
+      simp only [dotProduct_smul, hp, smul_eq_mul, mul_one] at this
+      exact this.symm
+    · rw [e, Matrix.mulVec_neg, hMp] at hlam
+      have := congrArg (fun x => p ⬝ᵥ x) hlam
+      simp only [dotProduct_neg, dotProduct_smul, hp, smul_eq_mul, mul_one, smul_neg] at this
+      linarith
+  rw [hlama] at hu
+  obtain ⟨k, hk⟩ := simple_of_quadform (toV w) (colsOf q) p a t hp hta hQ u hu
+  rcases hv with e | e
+  · exact ⟨k, by rw [e]; exact hk⟩
+  · exact ⟨-k, by rw [e, hk]; simp⟩
+
+/-- The gap hypothesis cannot be dropped — the half-turn case: inputs `(1,0,0,0)` and `(0,1,0,0)` (half a
+    turn apart) with weights `1/2`: both inputs meet the contract and they are not the same rotation. -/
+theorem mean_half_turn_not_unique :
+    ∃ (eig eig' : Mat ℝ 4 4 → Q ℝ) (w : Vec ℝ 2) (q : Mat ℝ 4 2), MeanContract eig w q ∧ MeanContract eig' w q ∧
+      quatMean eig' w q ≠ quatMean eig w q ∧ quatMean eig' w q ≠ (quatMean eig w q).neg := by
+  let p1 : Q ℝ := ⟨1, 0, 0, 0⟩
+  let p2 : Q ℝ := ⟨0, 1, 0, 0⟩
+  let q : Mat ℝ 4 2 := qCols ![p1, p2]
+  let w : Vec ℝ 2 := Vec.of (fun _ => 1 / 2)
+  have hcols : colsOf q = ![p1.get, p2.get] := by
+    funext i; rw [colsOf_eq, ofCol_qCols]; fin_cases i <;> rfl
+  have hw : toV w = fun _ : Fin 2 => (1 / 2 : ℝ) := rfl
+  have hb := half_turn_both_dominant p1.get p2.get (by rw [get_dot_self]; simp [p1, Q.normSq])
+    (by rw [get_dot_self]; simp [p2, Q.normSq]) (by rw [get_dot_get]; simp [p1, p2, Q.dot])
+  refine ⟨fun _ => p1, fun _ => p2, w, q, ?_, ?_, ?_, ?_⟩
+  · unfold MeanContract; rw [toM_outerMean, hcols, hw]; exact hb.1
+  · unfold MeanContract; rw [toM_outerMean, hcols, hw]; exact hb.2
+  · intro h; have := congrArg Q.w h; simp [quatMean, p1, p2] at this
+  · intro h; have := congrArg Q.x h; simp [quatMean, p1, p2, Q.neg] at this
+
 /-- all inputs `± q0`, total weight positive: `q0` satisfies the contract, and every result satisfying
     the contract is `q0` or `-q0` -/
 theorem mean_all_equal (eig : Mat ℝ 4 4 → Q ℝ) (w : Vec ℝ n) (q : Mat ℝ 4 n) (q0 : Q ℝ)
